@@ -1170,6 +1170,7 @@ fn l_evict_lru_terminates() {
     let inner = &*st.b.inner;
     let kv = st.b.remove_entry(&0u8).unwrap();                           // invalidate(0): Remove not yet applied
     let mut counters = EvictionCounters::new(g.ec, g.ws);
+    kani::cover!(true, "inputs chosen");
     {
         let mut deqs = inner.deques.lock().expect("lock poisoned");
         inner.evict_lru_entries(&mut deqs, 2, g.ws - 1, &mut counters);
